@@ -111,9 +111,9 @@ pub struct SynCheck {
 
 pub fn syn_check(id: &str) -> Option<SynCheck> {
     Some(match id {
-        "C10" => SynCheck { id: "C10", opts: SynOpts { vars_heavy: false, children: true, respell_pct: 8, special_chars_pct: 12 }, quick: 30_000, thorough: 500_000 },
-        "C11" => SynCheck { id: "C11", opts: SynOpts { vars_heavy: true, children: true, respell_pct: 2, special_chars_pct: 5 }, quick: 30_000, thorough: 500_000 },
-        "C14" => SynCheck { id: "C14", opts: SynOpts { vars_heavy: false, children: true, respell_pct: 5, special_chars_pct: 5 }, quick: 20_000, thorough: 200_000 },
+        "C10" => SynCheck { id: "C10", opts: SynOpts { vars_heavy: false, children: true, respell_pct: 8, special_chars_pct: 12 }, quick: 300_000, thorough: 3_000_000 },
+        "C11" => SynCheck { id: "C11", opts: SynOpts { vars_heavy: true, children: true, respell_pct: 2, special_chars_pct: 5 }, quick: 300_000, thorough: 3_000_000 },
+        "C14" => SynCheck { id: "C14", opts: SynOpts { vars_heavy: false, children: true, respell_pct: 5, special_chars_pct: 5 }, quick: 250_000, thorough: 2_500_000 },
         _ => return None,
     })
 }
